@@ -153,6 +153,15 @@ def exhaustive_cases():
 
 _LOG = []
 _CLS = {}
+_CUR = [None]     # the forecaster under test: the doubles read its cutoff at the time of each predict
+
+
+def _cutoff_now():
+    f = _CUR[0]
+    try:
+        return int(f.cutoff)
+    except Exception:
+        return None
 
 
 def _wsum(vals):
@@ -191,7 +200,8 @@ def _d_predict(self, X):
         ret = np.array(float(vals[0]))      # 0-d: what `y_pred[i] = ...` needs under numpy 2.4
     else:
         ret = np.array(vals, dtype=float)
-    _LOG.append({"op": "predict", "k": self.serial_, "X": X, "ret": np.array(ret, copy=True)})
+    _LOG.append({"op": "predict", "k": self.serial_, "X": X, "ret": np.array(ret, copy=True),
+                 "cut": _cutoff_now()})
     return ret
 
 
